@@ -98,3 +98,28 @@ def dedup_name_was_free_and_is_taken(seen_methods, op, old):
 @c.ensures(only_exit="end")
 def dedup_taken_names_stay_taken(seen_methods, other, old):
     return other not in old.seen_methods or other in seen_methods
+
+
+# ---- DataclassGenerator.generate, one arbitrary property: the statement of C02 / C03 for the field loop ----------------------------------------
+c = contract(f"{DG}:DataclassGenerator.generate#one-property", props=["C02", "C03", "C20"], region_for_target="(prop_name, prop_schema)", region_body_only=True,
+             types={"prop_name": "str", "prop_schema": "any", "seen_field_names": "dict", "field_mappings": "dict", "fields_data": "list", "other": "str",
+                    "schema": "any", "base_name": "any", "context": "any"},
+             abstract_unsupported=True, dependency_post={"sanitize_method_name": _is_str}, nothrow_calls=["sanitize_method_name"],
+             functional_opaque=["NameSanitizer.sanitize_method_name", "sanitize_method_name"])
+
+
+@c.ensures(only_exit="end", note="C02: every property yields exactly one dataclass field (none dropped, none duplicated)")
+def one_field_per_property(fields_data, old):
+    return len(fields_data) == len(old.fields_data) + 1
+
+
+@c.ensures(only_exit="end", note="C03/C20: the field name bound to this wire key was bound to no other wire key before, and the two maps agree: "
+                                 "wire key -> field name (field_mappings) and field name -> wire key (seen_field_names) are mutually inverse on this pair")
+def wire_key_and_field_name_are_paired(prop_name, field_mappings, seen_field_names, old):
+    name = field_mappings[prop_name]
+    return isinstance(name, str) and name not in old.seen_field_names and seen_field_names[name] == prop_name
+
+
+@c.ensures(only_exit="end", note="bindings made for earlier properties are not disturbed")
+def earlier_bindings_kept(seen_field_names, other, old):
+    return other not in old.seen_field_names or seen_field_names[other] == old.seen_field_names[other]
